@@ -1,3 +1,23 @@
-From BP Require Import Base.Chars.
-Theorem C03_placeholder : True. Proof. exact I. Qed.
-Print Assumptions C03_placeholder.
+(* C03 - block raw texts tile the source without loss or overlap; line numbers are true.
+   Statements only; proofs in Proofs/SplitTiling.v. *)
+From Coq Require Import List NArith ZArith.
+From BP Require Import Base.Chars Model.Blocks Model.Splitter Spec.C03 Proofs.SplitTiling.
+Local Open Scope Z_scope.
+
+(* for EVERY input text, well-formed or not: the raw texts of the returned blocks, in block order, decompose
+   "\n" ++ text as gap0 raw1 gap1 ... rawk gapk with whitespace-only gaps (so no character is dropped or
+   duplicated, also around failed blocks), every raw text is non-empty, and each start_line equals the number of
+   newlines before the raw text, counted from 0 at the first source line *)
+Theorem C03_tiling_and_lines : forall t bs, split_raw t = Blocks bs -> tiles_with_true_lines t bs.
+Proof. exact split_raw_tiles. Qed.
+Print Assumptions C03_tiling_and_lines.
+
+(* every field of every entry (also inside duplicate-field blocks) reports the true line of an '=' character of
+   the entry's raw text: raw = pre ++ '=' :: post and line = start_line + newlines(pre) *)
+Theorem C03_field_lines : forall t bs, split_raw t = Blocks bs -> Forall blk_ok bs.
+Proof. exact field_line_is_eq_line. Qed.
+Print Assumptions C03_field_lines.
+
+Theorem C03_field_lines_in_range : forall t bs, split_raw t = Blocks bs -> Forall fields_in_range bs.
+Proof. exact field_lines_in_range. Qed.
+Print Assumptions C03_field_lines_in_range.
